@@ -52,7 +52,7 @@ Proof. intros rc o b es H. cbn [expected_missing]. rewrite H. apply app_nil_r. Q
 Example C05_nonvacuous :
   let f := utf8_encode [47;47;13;10;9;252;59;105;110;102;111;33;40;34;98;34;41;59] in
   let rc := mkRunCfg (mkConfig false [([108;111;103], [105;110;102;111])]) true in
-  let o := mkOracle None None (fun _ => false) (fun _ => false) (fun _ => FNone) false in
+  let o := mkOracle None None (fun _ => false) (fun _ => false) (fun _ => FNone) LkOk in
   ro_reports (check rc [f] o) = [RMissing 0 2 11] /\ ro_exit (check rc [f] o) = XErr /\
   map (fun x => fst (fst x, snd x)) (ro_ids (edit rc [f] LAbsent o)) = [(0%nat, 15)].
 Proof. vm_compute. repeat split; reflexivity. Qed.
